@@ -297,6 +297,9 @@ func init() {
 		if err := c09HtmlStages(c); err != nil {
 			return err
 		}
+		if err := c09JsStages(c); err != nil {
+			return err
+		}
 		var pool [][]byte
 		for _, d := range docs {
 			if len(d.data) < 200000 {
